@@ -205,8 +205,8 @@ func c15Play(ctx *rt.Ctx, c c15Case) (viol string, outcome string) {
 	path := filepath.Join(ctx.Scratch, fmt.Sprintf("c15-%d.updog", c15Seq))
 	c15Make(ctx, c, path)
 	defer os.Remove(path)
-	flk.PanicOnWait = true
-	defer func() { flk.PanicOnWait = false }()
+	flk.Sequential(true)
+	defer flk.Sequential(false)
 	old := debug.SetGCPercent(-1)
 	defer debug.SetGCPercent(old)
 	var idx *updog.Index
@@ -223,6 +223,8 @@ func c15Play(ctx *rt.Ctx, c c15Case) (viol string, outcome string) {
 				if r := recover(); r != nil {
 					if wb, ok := r.(flk.WouldBlock); ok {
 						v = fmt.Sprintf("step %d %s hangs: %v", n+1, op, wb)
+					} else if e, ok := r.(error); ok && strings.Contains(e.Error(), "would block forever") {
+						v = fmt.Sprintf("step %d %s hangs: %v", n+1, op, e)
 					} else {
 						v = fmt.Sprintf("step %d %s panicked: %v", n+1, op, r)
 					}
@@ -275,12 +277,12 @@ func c15Play(ctx *rt.Ctx, c c15Case) (viol string, outcome string) {
 				if !flk.Free(path) {
 					v = fmt.Sprintf("step %d after Close the file is still locked", n+1)
 				}
-			case op == "close2":
+			case op == "close2", op == "close3":
 				if closed == nil {
 					return
 				}
 				if err := closed.Close(); err != nil {
-					v = fmt.Sprintf("step %d second Close returned %v", n+1, err)
+					v = fmt.Sprintf("step %d repeated Close returned %v", n+1, err)
 				}
 			case op == "probe":
 				if idx == nil {
@@ -312,6 +314,9 @@ func c15Histories(thorough bool) [][]string {
 	for _, o1 := range opens {
 		for _, o2 := range opens {
 			hs = append(hs, []string{o1, "probe", "close", "close2", o2, "probe", "close"})
+			if o1 == o2 {
+				hs = append(hs, []string{o1, "close", "close2", "close3", o2, "probe", "close", "close2", "close3"})
+			}
 			if thorough {
 				hs = append(hs, []string{o1, o2, "close", o1, "close", "close2", o2})
 			}
